@@ -179,6 +179,7 @@ def thorough_extras(prop, repo):
         out["selftest"] = {"mutants_flagged": len(flagged), "mutants_total": len(flagged) + len(missed), "missed": missed,
                            "benign_silent": len(silent), "benign_total": len(silent) + len(false_alarm), "false_alarms": false_alarm,
                            "not_applicable_to_this_tree": other,
+                           "documented_limitations": [x["label"] for x in res["results"] if x["status"] == "KNOWN-LIMITATION"],
                            "flagged_examples": [{"patch": x["patch"], "by": [v for vv in x["flagged"].values() for v in vv["violations"]][:1]} for x in flagged[:5]]}
         for m in missed:
             print("SELFTEST-MISSED %s" % m)
